@@ -32,4 +32,12 @@ CLAIMS["C16"] = {
             "at drawn file-system calls inside Commit with before/after-image check and recovery. Sampling, not proof.",
     "note": "Trusted: the model in harness/c16 and refmodel.SMTRoot. The application is the simulation module; the handler is called in-process with the Consensus field filled in.",
 }
+CLAIMS["C14"] = {
+    "engine": "schedsim", "level": "exploration", "design_ref": "2.2, 4/C14",
+    "technique": "deterministic simulation: seeded goroutine interleavings (every lock/go/select/timer a scheduler decision) of the real transaction pool, index invariants at lock-free quiescent instants, stuck detection",
+    "text": "The real pool runs under a cooperative deterministic scheduler that decides every lock acquisition, goroutine start, select and timer from the seed; client tasks issue drawn operations with limits from 1 upwards. "
+            "At every quiescent instant with no pool lock held the three indexes, the limits, replacement and the processable runs are checked against the model verifier; a run in which some call never returns (lock-wait cycle, "
+            "self-deadlock) is a violation with the wait graph. Sampling of schedules, not exhaustive.",
+    "note": "Trusted: the lock model in simrt (Go semantics incl. writer preference), the invariant checker in harness/c14, the model verifier.",
+}
 PENDING = {}
